@@ -42,6 +42,7 @@ def project_mol(cr, mol, n):
 def drive(rec):
     n = rec["n"]
     t = {"n": n, "gram": rec["gram"], "asym": rec["asym"], "mols": rec["mols"], "bonds": rec["bonds"], "ops": [],
+         "switched": bool(rec.get("via_switch")), "pre": rec.get("pre", {}), "choice": rec["choice"],
          "thr": xtal.bond_table(rec), "mass": xtal.mass_table(rec), "exc_conn": "", "exc_mols": "",
          "exc_unique": "", "off": False, "ucpts": [], "edges": [], "ucmols": [], "unique": [], "bfs": [],
          "meta": {"recipe": rec, "source": rec.get("src", "random"),
@@ -103,6 +104,15 @@ def gen(args):
     import random
     row, seed, nmols, sizes = args
     rng = random.Random(seed)
+    if nmols == "switched":
+        # used in hexagonal axes, then switched in place to rhombohedral axes (see xtal.switched_recipe)
+        pq = (rng.randint(1, 6), rng.randint(1, 12))
+        gram = [[18 * pq[0], -9 * pq[0], 0], [-9 * pq[0], 18 * pq[0], 0], [0, 0, 9 * pq[1]]]
+        rec_h = xtal.gen_molecular(rng, row, nmols=rng.choice([1, 1, 2]), sizes=sizes, gram_fn=lambda r: gram, max_tries=80)
+        rec = xtal.switched_recipe(rec_h, table_rows()) if rec_h is not None else None
+        if rec is not None:
+            rec["src"] = "switched in place H->R after use"
+        return rec if rec is not None else {"__none__": True, "meta": {}}
     rec = xtal.gen_molecular(rng, row, nmols=nmols, sizes=sizes)
     return rec if rec is not None else {"__none__": True, "meta": {}}
 
@@ -117,6 +127,9 @@ def make_recipes(ctx, rows, per_setting):
                 nm = 2
             sizes = (2, 3) if big else ctx.rng.choice([(2, 3, 4), (2, 3, 4, 5), (2, 4), (3,)])
             jobs.append((r, ctx.seed * 1000003 + i * 31 + k, nm, sizes))
+    hex_rows = [r for r in rows if r["number"] in (146, 148, 155, 160, 161, 166, 167) and r["choice"] == "H"]
+    for j in range(max(7, 2 * per_setting * 7)):
+        jobs.append((hex_rows[j % 7], ctx.seed * 17 + 4000 + j, "switched", (2, 3) if j % 2 else (2, 3, 4)))
     recs = pool_map(gen, jobs)
     return [r for r in recs if "__none__" not in r]
 
